@@ -32,6 +32,8 @@ type Projector struct {
 	// Nonces seen so far (hex) -> count, for C04
 	Nonces map[string]int
 	nonceCt map[string]string
+	// GlobalNonces: check nonce freshness against every object seen by any projector of this test process
+	GlobalNonces bool
 	// Markers are plaintext strings that must not appear in stored bytes
 	Markers [][]byte
 	// BlobPlain keeps plaintext hash checks: token -> name_ok
@@ -105,16 +107,18 @@ func (p *Projector) noteNonce(n []byte, ct []byte) bool {
 		p.nonceCt = map[string]string{}
 	}
 	// nonces are random 128-bit values drawn by the process under test: a value seen before for other bytes is a
-	// reuse whichever repository (history of this run) it was seen in, so the registry is shared by all
-	// projectors of the test process
-	globalNonceMu.Lock()
-	gold, gok := globalNonceCt[k]
-	if !gok {
-		globalNonceCt[k] = fp
-	}
-	globalNonceMu.Unlock()
-	if gok && gold != fp {
-		return false
+	// reuse whichever repository (history of this run) it was seen in: drivers that never damage or clone stored
+	// bytes themselves (C04) share one registry between all their projectors (GlobalNonces)
+	if p.GlobalNonces {
+		globalNonceMu.Lock()
+		gold, gok := globalNonceCt[k]
+		if !gok {
+			globalNonceCt[k] = fp
+		}
+		globalNonceMu.Unlock()
+		if gok && gold != fp {
+			return false
+		}
 	}
 	if old, ok := p.nonceCt[k]; ok {
 		return old == fp && !zero
